@@ -644,13 +644,13 @@ func (r *rwRun) callback(push bool) func(protopath.Values) error {
 }
 
 var rwTypes = map[string]func() proto.Message{
-	"test.TestAllTypes":          func() proto.Message { return new(testpb.TestAllTypes) },
-	"test.TestAllExtensions":     func() proto.Message { return new(testpb.TestAllExtensions) },
-	"test3.TestAllTypes":         func() proto.Message { return new(test3pb.TestAllTypes) },
-	"testeditions.TestAllTypes":  func() proto.Message { return new(testeditionspb.TestAllTypes) },
+	"test.TestAllTypes":                func() proto.Message { return new(testpb.TestAllTypes) },
+	"test.TestAllExtensions":           func() proto.Message { return new(testpb.TestAllExtensions) },
+	"test3.TestAllTypes":               func() proto.Message { return new(test3pb.TestAllTypes) },
+	"testeditions.TestAllTypes":        func() proto.Message { return new(testeditionspb.TestAllTypes) },
 	"testeditions_opaque.TestAllTypes": func() proto.Message { return new(testeditionsopaquepb.TestAllTypes) },
-	"textpb2.KnownTypes":         func() proto.Message { return new(textpb2.KnownTypes) },
-	"news.Article":               func() proto.Message { return new(newspb.Article) },
+	"textpb2.KnownTypes":               func() proto.Message { return new(textpb2.KnownTypes) },
+	"news.Article":                     func() proto.Message { return new(newspb.Article) },
 }
 var rwTypeNames = []string{"rw.N", "rw.N", "rw.N", "test.TestAllTypes", "test.TestAllExtensions", "test3.TestAllTypes", "testeditions.TestAllTypes",
 	"testeditions_opaque.TestAllTypes", "textpb2.KnownTypes", "news.Article"}
